@@ -741,6 +741,12 @@ def rule_deflate(ck, consts):
         def ut(n, u, env, attr=attr, mk=mk):
             if n.kind == "stmt" and isinstance(n.ast, (ast.Assign, ast.AnnAssign)) and n.ast.value is not None and attr in q.assigned_paths(n.ast):
                 v = n.ast.value
+                for _ in range(3):  # conditional expression / `a and b` chosen by a foldable test
+                    if isinstance(v, ast.IfExp):
+                        t_ = X.fold_in(v.test, env, "?")
+                        if t_ == "?":
+                            break
+                        v = v.body if t_ else v.orelse
                 if q.is_call(v, mk):
                     return "live"
                 if isinstance(v, ast.Constant) and v.value is None:
